@@ -2,7 +2,7 @@
 use crate::common::*;
 use kvarn::prelude::*;
 
-const FILES: [(&str, &str); 10] = [
+const FILES: [(&str, &str); 12] = [
     // a `cache` directive with a *duration* (and other keywords) after the guard
     ("ipscachedur.html", "!> allow-ips 10.0.0.1 &> cache server:300s\nSECRET-IPSD .................................................."),
     ("ipscacheqm.html", "!> allow-ips 10.0.0.1 &> cache server:query-matters client:full\nSECRET-IPSQ .................................................."),
@@ -14,6 +14,9 @@ const FILES: [(&str, &str); 10] = [
     ("secret.private", "SECRET-PRIVATE .................................................."),
     ("plain.html", "PLAIN .................................................."),
     ("ipscrlf.html", "!> allow-ips 10.0.0.1\r\nSECRET-CRLF .................................................."),
+    // a long list (41 addresses: the directive line is over 400 bytes), alone and with a directive behind it
+    ("ipslong.html", "!> allow-ips 10.0.0.1 10.0.1.10 10.0.1.11 10.0.1.12 10.0.1.13 10.0.1.14 10.0.1.15 10.0.1.16 10.0.1.17 10.0.1.18 10.0.1.19 10.0.1.20 10.0.1.21 10.0.1.22 10.0.1.23 10.0.1.24 10.0.1.25 10.0.1.26 10.0.1.27 10.0.1.28 10.0.1.29 10.0.2.10 10.0.2.11 10.0.2.12 10.0.2.13 10.0.2.14 10.0.2.15 10.0.2.16 10.0.2.17 10.0.2.18 10.0.2.19 10.0.2.20 10.0.2.21 10.0.2.22 10.0.2.23 10.0.2.24 10.0.2.25 10.0.2.26 10.0.2.27 10.0.2.28 10.0.2.29\nSECRET-IPSL .................................................."),
+    ("ipslongcache.html", "!> allow-ips 10.0.0.1 10.0.1.10 10.0.1.11 10.0.1.12 10.0.1.13 10.0.1.14 10.0.1.15 10.0.1.16 10.0.1.17 10.0.1.18 10.0.1.19 10.0.1.20 10.0.1.21 10.0.1.22 10.0.1.23 10.0.1.24 10.0.1.25 10.0.1.26 10.0.1.27 10.0.1.28 10.0.1.29 10.0.2.10 10.0.2.11 10.0.2.12 10.0.2.13 10.0.2.14 10.0.2.15 10.0.2.16 10.0.2.17 10.0.2.18 10.0.2.19 10.0.2.20 10.0.2.21 10.0.2.22 10.0.2.23 10.0.2.24 10.0.2.25 10.0.2.26 10.0.2.27 10.0.2.28 10.0.2.29 &> cache server:full\nSECRET-IPSLC .................................................."),
 ];
 
 fn fixture(ctx: &Ctx) -> std::path::PathBuf {
